@@ -353,6 +353,9 @@ pub struct Layout {
     pub redundant_parens: u64,
     /// parenthesise the right-hand side of `=` when it is not an atom (works around a known defect)
     pub paren_assign_rhs: bool,
+    /// parenthesise operand/operator pairs whose relative precedence is a recorded deviation of
+    /// the parser from the OpenQASM table (so that both readings agree)
+    pub paren_deviating: bool,
     pub seed: u64,
 }
 
@@ -362,9 +365,22 @@ impl Layout {
             trivia: Trivia::Sparse,
             redundant_parens: 0,
             paren_assign_rhs: false,
+            paren_deviating: false,
             seed: 0,
         }
     }
+}
+
+/// Operator pairs (in either nesting) on whose relative precedence the parser deviates from the
+/// OpenQASM 3 table (recorded C05 findings).
+pub fn deviating_pair(a: BinOp, b: BinOp) -> bool {
+    let rel = |o: BinOp| matches!(o, BinOp::Lt | BinOp::Le | BinOp::Gt | BinOp::Ge);
+    let eq = |o: BinOp| matches!(o, BinOp::Eq | BinOp::Ne);
+    let bit = |o: BinOp| matches!(o, BinOp::BitAnd | BinOp::BitXor | BinOp::BitOr);
+    if a == BinOp::Pow || b == BinOp::Pow {
+        return true;
+    }
+    (rel(a) && eq(b)) || (eq(a) && rel(b)) || (bit(a) && (rel(b) || eq(b))) || (bit(b) && (rel(a) || eq(a)))
 }
 
 pub struct Printed {
@@ -621,12 +637,32 @@ impl<'a> Printer<'a> {
             EK::Unary(op, a) => {
                 self.tok(op.text());
                 // the operand of a unary operator binds at unary level; power binds tighter
-                self.expr(a, UNARY_PREC);
+                let force = self.lay.paren_deviating && matches!(a.k, EK::Binary(BinOp::Pow, ..));
+                self.expr(a, if force { POSTFIX_PREC } else { UNARY_PREC });
             }
             EK::Binary(op, l, r) => {
                 let p = op.prec();
-                let (lmin, rmin) = if op.right_assoc() { (p + 1, p) } else { (p, p + 1) };
-                // OpenQASM: the left operand of `**` may not be a bare unary expression
+                let (mut lmin, mut rmin) = if op.right_assoc() { (p + 1, p) } else { (p, p + 1) };
+                if self.lay.paren_deviating {
+                    if let EK::Binary(c, ..) = &l.k {
+                        if deviating_pair(*op, *c) {
+                            lmin = POSTFIX_PREC;
+                        }
+                    }
+                    if let EK::Binary(c, ..) = &r.k {
+                        if deviating_pair(*op, *c) {
+                            rmin = POSTFIX_PREC;
+                        }
+                    }
+                    if *op == BinOp::Pow {
+                        if matches!(l.k, EK::Unary(..)) {
+                            lmin = POSTFIX_PREC;
+                        }
+                        if matches!(r.k, EK::Unary(..)) {
+                            rmin = POSTFIX_PREC;
+                        }
+                    }
+                }
                 self.expr(l, lmin);
                 self.tok(op.text());
                 self.expr(r, rmin);
